@@ -848,9 +848,10 @@ pub(crate) fn point(name: &str, extra: &str) {
         .name()
         .unwrap_or("?")
         .to_owned();
+    let tid = format!("{:?}", std::thread::current().id());
     log_line(&format!(
-        "{{\"ev\":\"point\",\"seq\":{seq},\"thread\":{:?},\"point\":{:?},\"steps\":{steps},\"extra\":{:?}}}",
-        thread, name, extra
+        "{{\"ev\":\"point\",\"seq\":{seq},\"thread\":{:?},\"tid\":{:?},\"point\":{:?},\"steps\":{steps},\"extra\":{:?}}}",
+        thread, tid, name, extra
     ));
     let (seed, points) = delay_spec();
     for (p, lo, hi) in points {
